@@ -119,16 +119,27 @@ class Run:
             if len(r["instances"]) < r["floor"]:
                 self.broken.append("rule %s matched %d instance(s), floor %d" % (name, len(r["instances"]), r["floor"]))
         # reference obligation kinds: the instances confirmed on the committed tree are the reference for any later
-        # one; a kind of obligation that no longer turns up (a rule that found nothing to judge) is analysis-broken
+        # one. Per rule, obligations that no longer turn up must be made up for by new ones (a relabelled or rewritten
+        # form of the same obligation); a rule that lost obligations (found nothing to judge) is analysis-broken.
         ref = load_reference(self.prop, self.tier)
-        for key, n_ref in sorted(ref.items()):
-            n = self.kinds.get(key, 0)
+        repo_label = re.compile(r"^[\w./-]+\.(cpp|hpp)\b")      # instances from the repository's own tests/examples are not the library's business
+        per_rule = {}
+        for key in set(ref) | set(self.kinds):
+            rule, lab = key.split(" :: ", 1)
+            if repo_label.match(lab):
+                continue
+            n_ref, n = ref.get(key, 0), self.kinds.get(key, 0)
             need = n_ref if n_ref < 30 else int(n_ref * 0.7)
-            rule = key.split(" :: ")[0]
-            if re.match(r"^[\w./-]+\.(cpp|hpp)\b", key.split(" :: ", 1)[1]):
-                continue        # instances from the repository's own tests/examples: their number is not the library's business
-            if n < need and rule in self.rules and not self.rules[rule]["violations"]:
-                self.broken.append("obligation kind vanished or shrank: %d instance(s), reference %d: %s" % (n, n_ref, key))
+            pr = per_rule.setdefault(rule, {"missing": 0, "surplus": 0, "kinds": []})
+            if n < need:
+                pr["missing"] += need - n
+                pr["kinds"].append("%s (%d, reference %d)" % (lab, n, n_ref))
+            elif n > n_ref:
+                pr["surplus"] += n - n_ref
+        if ref:
+            for rule, pr in sorted(per_rule.items()):
+                if pr["missing"] > pr["surplus"] and rule in self.rules and not self.rules[rule]["violations"]:
+                    self.broken.append("rule %s lost %d obligation(s) of the reference (new ones: %d): %s" % (rule, pr["missing"], pr["surplus"], "; ".join(pr["kinds"][:4])))
         for k in known.get("findings", []):
             if k.get("property") == self.prop and (k["rule"], k["key"]) in {(v["rule"], v["key"]) for v in listed}:
                 print("KNOWN-FINDING: property=%s %s [%s %s]" % (self.prop, k["what"], k["rule"], k["key"]))
